@@ -394,18 +394,24 @@ impl Check for BuildCheck {
 			}
 		}
 		// ---- C20: definitional engines inside the wide / single precision builds
-		if self.id == "C20" {
-			let inner: Vec<(&str, Vec<&str>)> = vec![
-				("period_type_u16", vec!["C01", "C02", "C04", "C14", "C13"]),
-				("value_type_f32", vec!["C01", "C02", "C03", "C04", "C14", "C05", "C06", "C15"]),
-			];
+		{
+			let inner: Vec<(&str, Vec<&str>)> = if self.id == "C20" {
+				vec![
+					("period_type_u16", vec!["C01", "C02", "C04", "C14", "C13"]),
+					("value_type_f32", vec!["C01", "C02", "C03", "C04", "C14", "C05", "C06", "C15"]),
+				]
+			} else {
+				// C19: storage faults are not part of the programs (build dependent by construction); the crash / restore /
+				// corrupt-restore engine of C13 runs inside the unsafe_performance build instead
+				vec![("unsafe_performance", vec!["C13"])]
+			};
 			for (set, checks) in inner {
 				stats.fault(&format!("build:{set}:release"));
 				let bin = match build(set, "release") {
 					Ok(b) => b,
 					Err(e) => {
 						harness_or_repo(&e);
-						vs.push((Violation::new("C20", set, "feature_build_fails", 0, format!("feature set {set} does not build: {}", e.lines().take(12).collect::<Vec<_>>().join(" | "))), json!({"compiler_output": e})));
+						vs.push((Violation::new(self.id, set, "feature_build_fails", 0, format!("feature set {set} does not build: {}", e.lines().take(12).collect::<Vec<_>>().join(" | "))), json!({"compiler_output": e})));
 						continue;
 					}
 				};
@@ -438,7 +444,7 @@ impl Check for BuildCheck {
 							for l in out.lines().filter(|l| l.starts_with("VIOLATION")).take(3) {
 								let replay = l.split("replay=").nth(1).and_then(|x| x.split_whitespace().next()).unwrap_or("");
 								vs.push((
-									Violation::new("C20", set, &format!("definitional_check_{c}_fails_in_build"), 0, format!("inside the {set} build: {}", l.chars().take(400).collect::<String>())).tag("feature_set", set).tag("inner", c),
+									Violation::new(self.id, set, &format!("definitional_check_{c}_fails_in_build"), 0, format!("inside the {set} build: {}", l.chars().take(400).collect::<String>())).tag("feature_set", set).tag("inner", c),
 									json!({"feature_set": set, "inner_check": c, "inner_replay": replay, "replay_with": format!("target/{set}/release/yata-sim {c} --replay {replay}")}),
 								));
 							}
